@@ -12,6 +12,7 @@ package c05
 
 import (
 	"encoding/binary"
+	"encoding/hex"
 	"encoding/json"
 	"fmt"
 	"net"
@@ -156,9 +157,7 @@ func policyV6(ctx *engine.Ctx) {
 	}
 	if ctx.Shard == 0 {
 		for _, odd := range []net.IP{nil, {}, {1}, {1, 2, 3}, {1, 2, 3, 4, 5}, make(net.IP, 15), make(net.IP, 17)} {
-			if err := onet.RequirePublicIP(odd); err == nil {
-				ctx.Fail(unit, "non-address-accepted", fmt.Sprintf("RequirePublicIP accepted a %d-byte value", len(odd)), polCase{fmt.Sprintf("%x", []byte(odd))}, nil)
-			}
+			checkIP(ctx, unit, odd)
 			n++
 		}
 	}
@@ -197,7 +196,7 @@ func socksBytes(c e2eCase, port int) []byte {
 		return append(append([]byte{4}, ip.To16()...), pb...)
 	case "mapped":
 		return append(append([]byte{4}, ip.To4().To16()...), pb...)
-	case "lit4", "lit6":
+	case "lit4", "lit6", "litzone":
 		return append(append([]byte{3, byte(len(c.Addr))}, c.Addr...), pb...)
 	case "litmapped":
 		s := "::ffff:" + c.Addr
@@ -213,6 +212,8 @@ func socksBytes(c e2eCase, port int) []byte {
 // candidates: the addresses the destination stands for
 func candidates(c e2eCase) []net.IP {
 	switch c.Enc {
+	case "litzone":
+		return []net.IP{net.ParseIP(c.Addr[:strings.Index(c.Addr, "%")])}
 	case "empty":
 		return []net.IP{nil}
 	case "name":
@@ -361,6 +362,10 @@ func tcpCases() []e2eCase {
 		addFor(a)
 	}
 	out = append(out, e2eCase{Enc: "empty"})
+	// IPv6 literals with a zone, written in the domain field (net.ParseIP does not parse them)
+	for _, z := range []string{"::1%lo", "fe80::1%eth0", "fe80::dead:beef%lo", "fd00::1%eth0"} {
+		out = append(out, e2eCase{Enc: "litzone", Addr: z, Cipher: len(z) % 4})
+	}
 	pub4, pub6, priv4, priv6 := "93.184.216.34", "2606:4700::1111", "10.0.0.7", "fd00::7"
 	answers := [][]string{{priv4}, {priv6}, {pub4}, {pub6}, {pub4, priv4}, {priv4, pub4}, {priv6, pub4}, {pub4, priv6}, {priv4, priv6}, {priv4, "127.0.0.1", "169.254.169.254"},
 		{pub6, priv4}, {priv4, pub6}, {"127.0.0.1", pub4, "10.0.0.1"}, {"0.0.0.0"}, {"::"}, {"::ffff:10.0.0.1"}, {"::ffff:93.184.216.34"}}
@@ -493,8 +498,11 @@ func init() {
 		case "policy-v4", "policy-v6":
 			var pc polCase
 			json.Unmarshal(rp.Input, &pc)
+			b, _ := hex.DecodeString(pc.IP)
 			var ip net.IP
-			fmt.Sscanf(pc.IP, "%x", &ip)
+			if len(b) > 0 {
+				ip = net.IP(b)
+			}
 			checkIP(sub, rp.Unit, ip)
 			return sub.Res.Findings
 		case "e2e-tcp", "e2e-udp":
